@@ -435,7 +435,7 @@ func (z *ZodMap[T, R]) validateMap(value map[any]any, chks []core.ZodCheck, ctx 
 	}
 
 	if len(collected) > 0 {
-		return nil, issues.CreateArrayValidationIssues(collected)
+		return nil, issues.CreateArrayValidationIssues(collected, ctx)
 	}
 	return value, nil
 }
